@@ -16,10 +16,16 @@ const rtosc_arg_val_t* rtosc_arg_val_itr_get(const rtosc_arg_val_itr *itr,
     if(itr->av->type == '-')
     {
         if(rtosc_av_rep_has_delta(itr->av))
+        {
             rtosc_arg_val_range_arg(itr->av, itr->range_i, buffer);
+            result = buffer;
+        }
         else
-            *buffer = itr->av[1];
-        result = buffer;
+        {
+            // the repeated value itself; if it is an array ("3x[1 2]"),
+            // its elements follow it, so it can not be copied out
+            result = itr->av + 1;
+        }
     }
     else result = itr->av;
     return result;
